@@ -14,6 +14,18 @@ Obligations on the real effective SQL (sqlvc), for all databases satisfying the 
    batches.n_jobs grows by the update's n_jobs; K2 holds afterwards; a wrong staged count rolls everything back.
  * Python: batch_record_to_dict / job_group_record_to_dict report complete == (state == 'complete') and pass the counters
    through unchanged (AST obligations on the real functions).
+Wave 4 - the counting invariant K is now also stated here, in delta form on the final database of every path (not per statement):
+ * mark_job_complete, completing paths: n_completed and the outcome counter selected by new_state grow by exactly one for
+   exactly the groups of anc*(batch, group of the job) (every one of them, whatever the nesting depth) and are unchanged for
+   every other group / batch; exactly the completing job goes from a live to a terminal state.  Other paths: no job changes
+   terminal-ness and no count moves.
+ * every other stored procedure that assigns jobs.state (closed-world scan: schedule_job, mark_job_creating, mark_job_started,
+   unschedule_job, deactivate_instance, commit_batch_update): no job changes terminal-ness - a job counted complete is never
+   reset - and no count moves; the counts are written by mark_job_complete only (scan).
+ * the batch-row obligation of mark_job_complete uses the root instances of the quantified hypotheses (quantifier-free), so a
+   procedure that takes the batch total from anything but batches.n_jobs gets a counter-model instead of a timeout.
+ * front_end._create_jobs.insert_jobs_into_db (pyvc fragment + native replay): the staging statement is executed once per
+   ((g, ic), res) entry of inst_coll_resources and stages res['n_jobs'] under the ancestors of THAT g, for this batch / update.
 """
 from __future__ import annotations
 
@@ -87,28 +99,54 @@ def build(ctx):
         grp = jobs0.get([b, jj.v], 'job_group_id')
         anc = lambda g: jgsa0.has([b, grp.v, g])
         a_ = z3.Int('a_q')
+        k_open = lambda a: z3.Implies(z3.And(anc(a), z3.Not(SP.terminal(jobs0.get([b, jj.v], 'state')))), tal0.get([b, a], 'n_completed').v < jg0.get([b, a], 'n_jobs').v)  # noqa: E731
+        has_rows = lambda a: z3.Implies(anc(a), z3.And(jg0.has([b, a]), tal0.has([b, a])))  # noqa: E731
         pre = [
             z3.Not(bb.n), z3.Not(jj.n), SP.terminal(s.vars['new_state']),
             z3.ForAll([a_], k2(base, b, a_)), k2_batch(base, b),
             # counting invariant K, consequence for a committed non-terminal job: its ancestors are not yet complete
-            z3.ForAll([a_], z3.Implies(z3.And(anc(a_), z3.Not(SP.terminal(jobs0.get([b, jj.v], 'state')))), tal0.get([b, a_], 'n_completed').v < jg0.get([b, a_], 'n_jobs').v)),
+            z3.ForAll([a_], k_open(a_)),
             # structure: every ancestor has a job_groups row and a tally row; the root is an ancestor of every group (A1)
-            z3.ForAll([a_], z3.Implies(anc(a_), z3.And(jg0.has([b, a_]), tal0.has([b, a_])))), anc(z3.IntVal(0)),
+            z3.ForAll([a_], has_rows(a_)), anc(z3.IntVal(0)),
             bt0.get([b], 'n_jobs').v == jg0.get([b, z3.IntVal(0)], 'n_jobs').v, z3.Not(bt0.get([b], 'n_jobs').n), bt0.has([b]),
         ]
         hyps = list(s.pc) + pre
         if not sqlvc.feasible(list(s.pc) + pre[:3], 2000):
             continue
         wrote_tally = any(e.table == 'job_groups_n_jobs_in_complete_states' and e.kind in ('update', 'update-set') for e in s.effects)
+        # counting clause K in delta form, stated on the final database of the path against the initial one (whatever
+        # statements produced it).  Hypotheses are instances at the free group G / job (B2, J2) - no quantifier - so that a
+        # changed procedure gets a definite answer: an ancestor has its tally row; N' (C05): a child of a job that is not yet
+        # terminal is Pending.
+        jobs1, tal1 = s.db.tab('jobs'), s.db.tab('job_groups_n_jobs_in_complete_states')
+        B2, J2 = z3.Int('b_any'), z3.Int('j_any')
+        jp0 = base.tab('job_parents')
+        ns = s.vars['new_state']
+        cnt = lambda t, bx, col: t.get([bx, G], col)  # noqa: E731
+        same_term = lambda bx, jx: SP.terminal(jobs1.get([bx, jx], 'state')) == SP.terminal(jobs0.get([bx, jx], 'state'))  # noqa: E731
+        n_prime = z3.Implies(z3.And(jp0.has([b, J2, jj.v]), z3.Not(SP.terminal(jobs0.get([b, jj.v], 'state')))), SP.is_state(jobs0.get([b, J2], 'state'), 'Pending'))
         if wrote_tally:
             completing.append(z3.And(*(list(s.pc) + pre[:3])))
+            grows = lambda col, when: z3.And(z3.Not(cnt(tal1, b, col).n), cnt(tal1, b, col).v == cnt(tal0, b, col).v + z3.If(z3.And(anc(G), when), 1, 0))  # noqa: E731
+            SP.add_valid(ctx, '%s/path%d/K-completed-count-grows-by-one-for-exactly-the-ancestors-of-the-jobs-group' % (name, pi), s.pc, pre[:3] + [z3.Implies(anc(G), tal0.has([b, G])), z3.Not(cnt(tal0, b, 'n_completed').n)], grows('n_completed', z3.BoolVal(True)))
+            SP.add_valid(ctx, '%s/path%d/K-outcome-counts-grow-by-the-new-state-for-exactly-the-ancestors' % (name, pi), s.pc, pre[:3] + [z3.Implies(anc(G), tal0.has([b, G]))] + [z3.Not(cnt(tal0, b, c_).n) for c_ in ('n_succeeded', 'n_failed', 'n_cancelled')],
+                         z3.And(grows('n_succeeded', SP.is_state(ns, 'Success')), grows('n_failed', SP.is_state(ns, 'Failed', 'Error')), grows('n_cancelled', SP.is_state(ns, 'Cancelled'))))
+            SP.add_valid(ctx, '%s/path%d/K-exactly-the-completing-job-becomes-terminal' % (name, pi), s.pc, pre[:3] + [n_prime, z3.Not(jp0.has([b, jj.v, jj.v]))],
+                         z3.And(z3.Not(SP.terminal(jobs0.get([b, jj.v], 'state'))), SP.terminal(jobs1.get([b, jj.v], 'state')), z3.Implies(z3.Or(B2 != b, J2 != jj.v), same_term(B2, J2))))
             SP.add_valid(ctx, '%s/path%d/K2-holds-for-every-group-afterwards' % (name, pi), s.pc, pre + [jg0.has([b, G])], k2(s.db, b, G))
-            SP.add_valid(ctx, '%s/path%d/K2-holds-for-the-batch-row-afterwards' % (name, pi), s.pc, pre, k2_batch(s.db, b))
+            # the batch row: the hypotheses are the instances at the root group of the quantified ones above (a consequence
+            # of them, and quantifier-free: a procedure that decides the batch state from something else than the root
+            # tally and batches.n_jobs then fails this obligation with a counter-model instead of timing out)
+            z0 = z3.IntVal(0)
+            pre_root = pre[:3] + [k2_batch(base, b), k_open(z0), has_rows(z0)] + pre[7:]
+            SP.add_valid(ctx, '%s/path%d/K2-holds-for-the-batch-row-afterwards' % (name, pi), s.pc, pre_root, k2_batch(s.db, b))
             SP.add_valid(ctx, '%s/path%d/n_jobs-untouched' % (name, pi), s.pc, pre, z3.And(s.db.tab('job_groups').get([b, G], 'n_jobs').v == jg0.get([b, G], 'n_jobs').v, s.db.tab('batches').get([b], 'n_jobs').v == bt0.get([b], 'n_jobs').v))
             b2 = z3.Int('b_other')
             SP.add_valid(ctx, '%s/path%d/other-batches-untouched' % (name, pi), s.pc, pre + [b2 != b], z3.And(sqlvc.sv_eq_values(s.db.tab('job_groups').get([b2, G], 'state'), jg0.get([b2, G], 'state')), s.db.tab('job_groups_n_jobs_in_complete_states').get([b2, G], 'n_completed').v == tal0.get([b2, G], 'n_completed').v))
         else:
             SP.add_valid(ctx, '%s/path%d/no-completion-no-change-of-states-or-tallies' % (name, pi), s.pc, pre, z3.And(sqlvc.sv_eq_values(s.db.tab('job_groups').get([b, G], 'state'), jg0.get([b, G], 'state')), sqlvc.sv_eq_values(s.db.tab('batches').get([b], 'state'), bt0.get([b], 'state')), s.db.tab('job_groups_n_jobs_in_complete_states').get([b, G], 'n_completed').v == tal0.get([b, G], 'n_completed').v))
+            SP.add_valid(ctx, '%s/path%d/K-no-completion-no-job-changes-terminalness-and-no-count-moves' % (name, pi), s.pc, pre[:3] + [n_prime],
+                         z3.And(same_term(B2, J2), *[sqlvc.sv_eq_values(cnt(tal1, B2, c_), cnt(tal0, B2, c_)) for c_ in ('n_completed', 'n_succeeded', 'n_failed', 'n_cancelled')]))
     ctx.add(core.satisfiable('%s/vacuity/some-completing-path' % name, z3.Or(*completing) if completing else z3.BoolVal(False)))
 
     # ---------------- commit_batch_update
@@ -135,6 +173,18 @@ def build(ctx):
         hyps = list(s.pc) + pre
         if not sqlvc.feasible(list(s.pc) + pre[:2], 2000):
             continue
+        # counting clause K: committing an update moves no job into or out of a terminal state and no completed count
+        B2, J2 = z3.Int('b_any'), z3.Int('j_any')
+        bu0 = base.tab('batch_updates')
+        ukey = [b, uu.v, z3.Int('u_start_group'), z3.Int('u_start_job')]  # the primary key of batch_updates includes the start ids
+        ucol = lambda c_: bu0.get(ukey, c_)  # noqa: E731
+        # hypothesis (C41, C09 id ranges): the jobs in the id range of an update that is not committed yet have never run
+        fresh_jobs = z3.ForAll(ukey[2:], z3.Implies(z3.And(B2 == b, bu0.has(ukey), z3.Not(sqlvc.truthy(ucol('committed'))), ukey[3] <= J2, J2 < ukey[3] + ucol('n_jobs').v), z3.Not(SP.terminal(base.tab('jobs').get([B2, J2], 'state')))))
+        q_ = [z3.Int('uq_g1'), z3.Int('uq_j1'), z3.Int('uq_g2'), z3.Int('uq_j2')]
+        one_row_per_update = z3.ForAll(q_, z3.Implies(z3.And(bu0.has([b, uu.v, q_[0], q_[1]]), bu0.has([b, uu.v, q_[2], q_[3]])), z3.And(q_[0] == q_[2], q_[1] == q_[3])))
+        SP.add_valid(ctx, '%s/path%d/K-no-job-changes-terminalness-and-no-count-moves' % (name, pi), s.pc, pre[:2] + [fresh_jobs, one_row_per_update],
+                     z3.And(SP.terminal(s.db.tab('jobs').get([B2, J2], 'state')) == SP.terminal(base.tab('jobs').get([B2, J2], 'state')),
+                            *[sqlvc.sv_eq_values(s.db.tab('job_groups_n_jobs_in_complete_states').get([B2, G], c_), tal0.get([B2, G], c_)) for c_ in ('n_completed', 'n_succeeded', 'n_failed', 'n_cancelled')]))
         rc = s.results[-1][0][1] if s.results else None
         jg_updates = [e for e in s.effects if e.table == 'job_groups' and e.kind == 'update-set' and not e.data.get('rolled_back')]
         live_writes = [e for e in s.effects if e.kind in ('insert', 'upsert', 'update', 'update-set', 'insert-select', 'delete', 'delete-set', 'loop-set') and not e.data.get('rolled_back')]
@@ -178,15 +228,219 @@ def build(ctx):
         SP.add_valid(ctx, '%s/path%d/batch-n_jobs-grows-by-the-update-and-batch-reopens' % (name, pi), s.pc, pre, z3.And(s.db.tab('batches').get([b], 'n_jobs').v == bt0.get([b], 'n_jobs').v + exp.v, SP.is_state(s.db.tab('batches').get([b], 'state'), RUNNING)))
         SP.add_valid(ctx, '%s/path%d/K2-holds-for-the-batch-row-afterwards' % (name, pi), s.pc, pre + [exp.v > 0], k2_batch(s.db, b))
     ctx.add(core.satisfiable('%s/vacuity/some-group-reopens' % name, z3.Or(*reopened) if reopened else z3.BoolVal(False)))
+    _counted_jobs_stay_counted(ctx, ex)
     SP.lock_discipline(ctx, ex, ['commit_batch_update', 'mark_job_complete', 'mark_job_group_complete'])
     _python(ctx)
+    staging_rows_contract(ctx)
     from contracts import sqlspec as _SP
     _SP.engine_obligations(ctx, ex)
     ctx.assume('each procedure call is atomic (serialisable isolation); MySQL NULL/boolean semantics as encoded in vc/sqlvc.py')
     ctx.assume('counting invariant K (n_completed = number of committed terminal jobs in the subtree, n_jobs = number of committed jobs) is used through its consequences n_completed <= n_jobs and, for the ancestors of a committed non-terminal job, n_completed < n_jobs; its maintenance is C04 (tally statement) + C41 (committed jobs only)')
+    ctx.assume("counting clause K (delta form) hypotheses taken from other properties: N' - a child of a job that is not terminal is Pending (C05); no job is its own parent (C08); the jobs in the id range of a not yet committed update are not terminal, and batch_updates has one row per (batch, update) (C41, C09)")
+    if ex.limit_subsets:
+        ctx.assume('derived tables with LIMIT n are modelled as an arbitrary n-subset of the rows of the plain SELECT (their ORDER BY is over-approximated away): %r' % [(d['alias'], d['limit'], d['line']) for d in ex.limit_subsets])
     ctx.assume('meta-lemma L2: two sums are equal when their row predicates are pointwise equivalent and their summands agree')
     ctx.assume('cursor loop of mark_job_group_complete: iterations are independent (checked: the body writes only the row keyed by its cursor row and reads no column it writes), so the loop is a pointwise transformer')
     ctx.undecided('time_completed bookkeeping; UI pages; that batches.n_jobs = n_jobs(root) is established by _create_batch (Python INSERTs)')
+
+
+FE = 'batch/batch/front_end/front_end.py'
+
+
+REPLAY_STAGING = r"""
+import sys, json, os, ast, re
+payload = json.load(sys.stdin)
+src = open(os.path.join(os.environ['VERIF_REPO'], 'batch/batch/front_end/front_end.py')).read()
+tree = ast.parse(src)
+cj = [n for n in ast.walk(tree) if isinstance(n, ast.AsyncFunctionDef) and n.name == '_create_jobs'][0]
+fn = [n for n in ast.walk(cj) if isinstance(n, ast.AsyncFunctionDef) and n.name == 'insert_jobs_into_db'][0]
+stmt = [n for n in ast.walk(fn) if isinstance(n, ast.Assign) and ast.unparse(n.targets[0]) == 'job_groups_inst_coll_staging_args'][0]
+res = {'confirmed': False}
+mk = lambda n: {'n_jobs': n, 'n_ready_jobs': 0, 'ready_cores_mcpu': 0, 'n_ready_cancellable_jobs': 0, 'ready_cancellable_cores_mcpu': 0}
+# one bunch with jobs of several job groups; the enclosing loop variable job_group_id holds the group of the LAST job
+for last_group, icr in ((2, {(1, 'standard'): mk(3), (2, 'standard'): mk(1)}), (1, {(1, 'standard'): mk(3), (2, 'standard'): mk(1)}), (5, {(5, 'standard'): mk(2), (5, 'highmem'): mk(4), (0, 'standard'): mk(7)})):
+    env = {'batch_id': 7, 'update_id': 3, 'rand_token': 11, 'job_group_id': last_group, 'inst_coll_resources': dict(icr)}
+    exec(compile(ast.Module(body=[stmt], type_ignores=[]), 'front_end-fragment', 'exec'), env)
+    rows = env['job_groups_inst_coll_staging_args']
+    staged = {}
+    for r in rows:
+        k = (r[payload['pos_group']], r[payload['pos_inst_coll']])
+        staged[k] = staged.get(k, 0) + r[payload['pos_n_jobs']]
+    want = {k: v['n_jobs'] for k, v in icr.items()}
+    if staged != want:
+        res = {'confirmed': True, 'what': 'staged n_jobs per (group, inst_coll) differ from the jobs of the bunch', 'input': {'inst_coll_resources': {repr(k): v['n_jobs'] for k, v in icr.items()}, 'job_group_id_of_last_job': last_group}, 'staged': {repr(k): v for k, v in staged.items()}, 'expected': {repr(k): v for k, v in want.items()}}
+        break
+print(json.dumps(res))
+"""
+
+
+def _sql_params(node):
+    """positional %s placeholders of a parsed statement (sub)tree, as {index: node}"""
+    from vc import sqlast as _A
+
+    return {n.index: n for n in node.walk() if isinstance(n, _A.Param)}
+
+
+def staging_rows_contract(ctx):
+    """front_end._create_jobs.insert_jobs_into_db, the statements that stage the per-group job counts of a bunch (real source,
+    pyvc fragment: the comprehension building job_groups_inst_coll_staging_args and the execute_many that consumes it).
+    `inst_coll_resources[(g, ic)]['n_jobs']` is the number of jobs of the bunch in group g / instance collection ic
+    (fragment A of contracts/create_jobs_frag.py: `icr = inst_coll_resources[(job_group_id, inst_coll_name)]; icr['n_jobs'] += 1`).
+    Clause of C06 ("its job count equals the count over those jobs"): the INSERT .. SELECT is executed once per entry
+    ((g, ic), res) of that dict and adds res['n_jobs'] to the staging rows of exactly the groups anc*(batch, g) of THIS batch
+    and update - commit_batch_update later adds those staged counts to job_groups.n_jobs (obligations above).
+    The enclosing function's `job_group_id` (the group of the LAST job of the bunch) is an arbitrary symbolic input here."""
+    from vc import pyvc, sqlparse as _sp, sqlast as _A
+    from vc.pyvc import Contract
+
+    res_t = pyvc.rec_type(n_jobs='int', n_ready_jobs='int', ready_cores_mcpu='int', n_ready_cancellable_jobs='int', ready_cancellable_cores_mcpu='int')
+    seen = []
+    pos = {}
+
+    def execute_many(eng, st, args, kw, node):
+        a0 = node.args[0] if node.args else None
+        if not (isinstance(a0, pyast.Constant) and isinstance(a0.value, str)):
+            raise core.Undecided('embedded SQL is not a string literal')
+        stn = _sp.parse_statements(a0.value)[0]
+        lab = eng.label
+        if not (isinstance(stn, _A.Insert) and stn.table == 'job_groups_inst_coll_staging'):
+            raise core.Undecided('statement after the staging comprehension is not the INSERT INTO job_groups_inst_coll_staging')
+        seen.append(stn)
+        rows = args[2] if len(args) > 2 else None
+        sel = stn.source
+        cols = [c.strip('`') for c in (stn.columns or [])]
+        shape = isinstance(sel, _A.Select) and len(sel.columns) == len(cols) and isinstance(sel.from_, _A.TableRef) and sel.from_.name == 'job_group_self_and_ancestors' and not sel.group_by and sel.limit is None
+        ctx.add(core.decided('%s/statement-selects-one-row-per-ancestor-of-one-group' % lab, bool(shape), stn.to_sql()[:300], kind='scan'))
+        if not shape or not isinstance(rows, pyvc.SList) or rows.et is None or rows.et[0] != 'tuple':
+            raise core.Undecided('staging INSERT has an unexpected shape')
+        by_col = dict(zip(cols, [c.expr for c in sel.columns]))
+        gsel = by_col.get('job_group_id')
+        ctx.add(core.decided('%s/staged-group-is-the-ancestor-column' % lab, isinstance(gsel, _A.Name) and gsel.parts[-1] == 'ancestor_id', repr(gsel), kind='scan'))
+        # WHERE batch_id = %s AND job_group_id = %s  (nothing else)
+        where = {}
+        conj = []
+        stack = [sel.where]
+        while stack:
+            e = stack.pop()
+            if isinstance(e, _A.BinOp) and e.op == 'AND':
+                stack.extend([e.right, e.left])
+            elif e is not None:
+                conj.append(e)
+        for e in conj:
+            if isinstance(e, _A.BinOp) and e.op == '=' and isinstance(e.left, _A.Name) and isinstance(e.right, _A.Param):
+                where[e.left.parts[-1]] = e.right.index
+        ctx.add(core.decided('%s/ancestors-are-looked-up-by-batch-and-group-only' % lab, len(conj) == 2 and sorted(where) == ['batch_id', 'job_group_id'], repr(sorted(where)), kind='scan'))
+        # ON DUPLICATE KEY UPDATE n_jobs = n_jobs + VALUES(n_jobs): the staged count is additive over the executions
+        od = {t.parts[-1]: e for t, e in stn.on_duplicate}
+        e = od.get('n_jobs')
+        additive = isinstance(e, _A.BinOp) and e.op == '+' and isinstance(e.left, _A.Name) and e.left.parts[-1] == 'n_jobs' and isinstance(e.right, _A.Func) and e.right.name.upper() == 'VALUES' and len(e.right.args) == 1 and isinstance(e.right.args[0], _A.Name) and e.right.args[0].parts[-1] == 'n_jobs'
+        ctx.add(core.decided('%s/staged-n_jobs-is-additive-on-duplicate-key' % lab, bool(additive), repr(e), kind='scan'))
+        n_params = len(_sql_params(stn))
+        arity = len(rows.et[1])
+        ctx.add(core.decided('%s/one-argument-per-placeholder' % lab, n_params == arity, '%d placeholders, %d tuple fields' % (n_params, arity), kind='scan'))
+        if n_params != arity or sorted(where) != ['batch_id', 'job_group_id']:
+            raise core.Undecided('staging INSERT: placeholders and arguments do not line up')
+        pidx = lambda c: by_col[c].index if isinstance(by_col.get(c), _A.Param) else None  # noqa: E731
+        need = {c: pidx(c) for c in ('batch_id', 'update_id', 'inst_coll', 'n_jobs')}
+        ctx.add(core.decided('%s/batch-update-inst_coll-and-n_jobs-are-bound-to-arguments' % lab, all(v is not None for v in need.values()), repr(need), kind='scan'))
+        if any(v is None for v in need.values()):
+            raise core.Undecided('staging INSERT: a staged column is not a placeholder')
+        d = st.env['inst_coll_resources']
+        i = z3.Int(pyvc.fresh_name('row'))
+        row = pyvc.from_z3(z3.Select(rows.arr, i), rows.et)
+        item = pyvc.from_z3(z3.Select(d.items.arr, i), d.items.et)
+        (g, ic), res = item[0], item[1]
+        inr = z3.And(0 <= i, i < rows.len)
+        eq = lambda x, y: eng.equal(x, y)  # noqa: E731
+        eng.oblige(st, 'one-execution-per-group-and-inst_coll-entry', rows.len == d.items.len)
+        eng.oblige(st, 'n_jobs-of-an-entry-is-staged-under-the-ancestors-of-that-entrys-group', z3.Implies(inr, z3.And(eq(row[where['job_group_id']], g), eq(row[need['n_jobs']], res.fields['n_jobs']))))
+        eng.oblige(st, 'staged-for-this-batch-update-and-inst_coll', z3.Implies(inr, z3.And(eq(row[where['batch_id']], st.env['batch_id']), eq(row[need['batch_id']], st.env['batch_id']), eq(row[need['update_id']], st.env['update_id']), eq(row[need['inst_coll']], ic))))
+        st.env['staged_rows'] = rows
+        pos.update(pos_group=where['job_group_id'], pos_n_jobs=need['n_jobs'], pos_inst_coll=need['inst_coll'])
+        return None
+
+    c = Contract(
+        path=FE,
+        qualname='_create_jobs.insert_jobs_into_db',
+        label='_create_jobs.insert_jobs_into_db[staging]',
+        fragment=(r're:^job_groups_inst_coll_staging_args = ', 2),
+        extra_inputs={'batch_id': 'int', 'update_id': 'int', 'rand_token': 'int', 'job_group_id': 'int', 'tx': 'U', 'inst_coll_resources': ('dict', ('tuple', ('int', 'U')), res_t)},
+        calls={'.execute_many': execute_many},
+        setup=lambda eng, st: st.env.__setitem__('staged_rows', pyvc.SList(z3.IntVal(0), None, None)),
+        ensures=[('the-staging-statement-is-executed', 'len(staged_rows) == len(inst_coll_resources.items())')],
+        canaries=[('nothing-staged', 'len(staged_rows) == 0')],
+    )
+    eng = pyvc.Engine(ctx, c)
+    # replay of a failed obligation: the real comprehension, executed on bunches that span several job groups
+    eng.replayer = lambda model, obl: core.run_native(REPLAY_STAGING, dict(pos)) if pos else {'confirmed': False}
+    eng.run()
+    ctx.add(core.decided('%s/exactly-one-staging-statement-in-the-fragment' % eng.label, len(seen) == 1, '%d' % len(seen), kind='scan'))
+    ctx.add(core.decided('%s/no-call-outside-the-contract' % eng.label, not eng.unmodelled, repr(eng.unmodelled), kind='frame'))
+    ctx.assume('_create_jobs.insert_jobs_into_db is verified on the two statements that stage the per-group counts (comprehension + execute_many); inst_coll_resources, batch_id, update_id, rand_token and the enclosing job_group_id are arbitrary symbolic inputs; that inst_coll_resources[(g, ic)][n_jobs] counts the jobs of group g is fragment A of contracts/create_jobs_frag.py (C01)')
+
+
+def native_witness(ctx):
+    """fallback when the contracts no longer fit the source (vc.check._witness_instead): replay the real staging comprehension of
+    _create_jobs.insert_jobs_into_db on bunches spanning several job groups; placeholder positions are read from the real SQL"""
+    from vc import sqlparse as _sp, sqlast as _A
+
+    tree = pyast.parse(core.read_repo(FE))
+    for call in pyast.walk(tree):
+        if isinstance(call, pyast.Call) and call.args and isinstance(call.args[0], pyast.Constant) and isinstance(call.args[0].value, str) and 'INSERT INTO job_groups_inst_coll_staging' in call.args[0].value:
+            stn = _sp.parse_statements(call.args[0].value)[0]
+            if not (isinstance(stn, _A.Insert) and isinstance(stn.source, _A.Select) and stn.columns):
+                return {'confirmed': False}
+            by_col = dict(zip([c.strip('`') for c in stn.columns], [c.expr for c in stn.source.columns]))
+            wh = {n.left.parts[-1]: n.right.index for n in stn.source.where.walk() if isinstance(n, _A.BinOp) and n.op == '=' and isinstance(n.left, _A.Name) and isinstance(n.right, _A.Param)} if stn.source.where is not None else {}
+            if 'job_group_id' in wh and all(isinstance(by_col.get(c), _A.Param) for c in ('n_jobs', 'inst_coll')):
+                return core.run_native(REPLAY_STAGING, {'pos_group': wh['job_group_id'], 'pos_n_jobs': by_col['n_jobs'].index, 'pos_inst_coll': by_col['inst_coll'].index})
+    return {'confirmed': False}
+
+
+def _tally_writers(ex):
+    from vc import sqlast as _A
+
+    out = set()
+    for rname, r in ex.routines.items():
+        for n in r.body.walk():
+            if isinstance(n, _A.Update) and 'job_groups_n_jobs_in_complete_states' in SP._tables_of(n.tables):
+                out.add(rname)
+            elif isinstance(n, (_A.Insert, _A.Delete)) and (n.table if isinstance(n.table, str) else n.table.name) == 'job_groups_n_jobs_in_complete_states':
+                out.add(rname)
+    return sorted(out)
+
+
+def _counted_jobs_stay_counted(ctx, ex):
+    """Counting clause K outside mark_job_complete: the counts are moved by mark_job_complete only (closed-world scan of the
+    effective routines), so every OTHER stored procedure that assigns jobs.state must leave the terminal-ness of every job
+    as it was - a job that was counted complete is never reset to a live state, and no job becomes terminal without being
+    counted.  Stated on the final database of every path against the initial one, for an arbitrary job (B2, J2)."""
+    from contracts.C04 import _state_writers
+
+    tw = _tally_writers(ex)
+    ctx.add(core.decided('closed-world/completed-counts-are-written-by-mark_job_complete-only', tw == ['mark_job_complete'], repr(tw), kind='scan'))
+    writers = _state_writers(ex)
+    ctx.add(core.decided('closed-world/procedures-assigning-jobs.state-include-the-completion-procedure', 'mark_job_complete' in writers and len(writers) >= 2, repr(writers), kind='scan'))
+    B2, J2, G = z3.Int('b_any'), z3.Int('j_any'), z3.Int('g_any')
+    for name in writers:
+        if name in ('mark_job_complete', 'commit_batch_update'):
+            continue  # mark_job_complete: clauses K-* above; commit_batch_update: below, on the paths already executed
+        rt = ex.routines[name]
+        ctx.under_contract(SP.rel(rt.source_file), 'PROCEDURE %s (terminal-ness of jobs)' % name)
+        st0 = ex.new_state()
+        for t in ('jobs', 'job_groups_n_jobs_in_complete_states'):
+            st0.db.tab(t)
+        base = st0.db.fork()
+        changed = []
+        for pi, s in enumerate(ex.run_procedure(name, st0)):
+            if not sqlvc.feasible(list(s.pc), 2000):
+                continue
+            o, n_ = base.tab('jobs').get([B2, J2], 'state'), s.db.tab('jobs').get([B2, J2], 'state')
+            t0, t1 = base.tab('job_groups_n_jobs_in_complete_states'), s.db.tab('job_groups_n_jobs_in_complete_states')
+            SP.add_valid(ctx, '%s/path%d/K-no-job-changes-terminalness-and-no-count-moves' % (name, pi), s.pc, [],
+                         z3.And(SP.terminal(n_) == SP.terminal(o), *[sqlvc.sv_eq_values(t1.get([B2, G], c_), t0.get([B2, G], c_)) for c_ in ('n_completed', 'n_succeeded', 'n_failed', 'n_cancelled')]))
+            changed.append(z3.And(*s.pc, z3.Not(sqlvc.sv_eq_values(o, n_))))
+        ctx.add(core.satisfiable('%s/vacuity/some-path-changes-a-job-state' % name, z3.Or(*changed) if changed else z3.BoolVal(False)))
 
 
 def _ids(term):
